@@ -458,3 +458,31 @@ pub fn m_replay_program() {
         i += 1;
     }
 }
+
+/// duration_parse natively for any count: must return (Ok or Err), never panic
+pub fn m_replay_duration_parse_any() {
+    let code: u8 = vany(); let x: f64 = vany();
+    vassume(code >= 1 && code <= 7);
+    let cfg = real_config();
+    let s = Session::new();
+    let tk = en_tokinizer(&cfg, &s);
+    let f = crate::verif_k::c05::fields2("duration", TokenType::Number(x, NumberType::Decimal), "type", TokenType::Text(unit_word(code).to_string()));
+    let _ = crate::tokinizer::verif_k_local::duration_parse(&cfg, &tk, &f);
+}
+
+/// whole lines with astronomically large counts through the public API: evaluation must return normally
+#[cfg(not(kani))]
+pub fn m_replay_huge_line() {
+    let which: u8 = vany();
+    let calc = crate::SmartCalc::default();
+    let line = match which {
+        0 => "200000000 years 200000000 years",
+        1 => "200000000 years + 200000000 years",
+        2 => "1 jan 2021 at 10:00 + 300000000 years",
+        _ => "99999999999999999 to date",
+    };
+    let r = calc.execute("en", line);
+    assert!(r.status && r.lines.len() == 1);
+}
+#[cfg(kani)]
+pub fn m_replay_huge_line() {}
